@@ -38,8 +38,12 @@ Errors(r) ==
        \cup (IF c.entry \in Single /\ Len(ds) = 1 /\ off # {}
                 /\ ~(r.result = "err:WorkingCounter" /\ r.expected = Expected(c, ds[1]) /\ r.received = ds[1].wkc)
              THEN {<<"SingleDatagramErrorWrong", r.result>>} ELSE {})
+       \* a working counter error names the counter some datagram of the call really came back with, and an
+       \* expectation that differs from it (for the datagrams the table lists as checked: the table's expectation;
+       \* the same register can be read in a checked and in an unchecked place of a multi-step entry point)
        \cup (IF r.result = "err:WorkingCounter"
-                /\ ~(\E j \in off : r.expected = Expected(c, ds[j]) /\ r.received = ds[j].wkc)
+                /\ ~(\E j \in 1..Len(ds) : /\ r.received = ds[j].wkc /\ r.received # r.expected
+                                              /\ (Expected(c, ds[j]) = -1 \/ Expected(c, ds[j]) = r.expected))
              THEN {<<"ErrorFieldsWrong", r.expected, r.received>>} ELSE {})
        \cup (IF c.entry \in Single /\ off = {} /\ c.fault.kind = "none" /\ r.result # "ok"
              THEN {<<"SpuriousError", r.result>>} ELSE {})
